@@ -388,10 +388,10 @@ Proof.
            norm. rewrite Hheap, Hfold, unzs_zs. reflexivity.
         -- step_if false ltac:(cbn; subst LC3; erewrite eval_listcomp_gen by reflexivity; rewrite comp_isconst; cbn;
                                rewrite all_consts, Eall; norm; rewrite Hheap, Hpure; reflexivity).
-           cbn. reflexivity.
+           subst TL. cbn. reflexivity.
       * step_if false ltac:(cbn; subst LC3; erewrite eval_listcomp_gen by reflexivity; rewrite comp_isconst; cbn;
                             rewrite all_consts, Eall; reflexivity).
-        cbn. reflexivity.
+        subst TL. cbn. reflexivity.
   (*DBG*)
 Qed.
 
